@@ -3,6 +3,7 @@ package mc
 import (
 	"context"
 	"fmt"
+	"os"
 	"testing/synctest"
 
 	"github.com/onosproject/onos-config/pkg/utils"
@@ -84,3 +85,13 @@ func (w *World) ReapCalls() {
 }
 
 func bgCtx() context.Context { return context.Background() }
+
+func envInt(name string, def int) int {
+	if v := os.Getenv(name); v != "" {
+		var n int
+		if _, err := fmt.Sscan(v, &n); err == nil && n > 0 {
+			return n
+		}
+	}
+	return def
+}
